@@ -204,7 +204,10 @@ class Record:
     def __hash__(self) -> int:
         desc_identifier, values = self._pack(excluded_fields=IGNORE_FIELDS_FOR_COMPARISON)
         if not any((isinstance(value, list) for value in values)):
-            return hash((desc_identifier, values))
+            try:
+                return hash((desc_identifier, values))
+            except TypeError:
+                return hash((desc_identifier, _freeze(values)))
 
         # Lists have to be converted to tuples to be able to hash them
         record_values = []
@@ -222,12 +225,25 @@ class Record:
                     list_values.append(list_value)
             record_values.append(tuple(list_values))
 
-        return hash((desc_identifier, tuple(record_values)))
+        try:
+            return hash((desc_identifier, tuple(record_values)))
+        except TypeError:
+            # Packed values can nest lists deeper than one level (command fields, lists of them, grouped records)
+            return hash((desc_identifier, _freeze(values)))
 
     def __repr__(self):
         return "<{} {}>".format(
             self._desc.name, " ".join("{}={!r}".format(k, getattr(self, k)) for k in self._desc.fields)
         )
+
+
+def _freeze(value):
+    """Return a hashable equivalent of a packed value: lists and dicts become tuples, recursively."""
+    if isinstance(value, (list, tuple)):
+        return tuple(_freeze(v) for v in value)
+    if isinstance(value, dict):
+        return tuple((k, _freeze(v)) for k, v in value.items())
+    return value
 
 
 class GroupedRecord(Record):
